@@ -126,7 +126,24 @@ def close(a, b, rel=1e-9, scale=None):
     return bool(np.all(np.abs(a[~nan] - b[~nan]) <= rel * scale))
 
 
-def observe_fit(idnt, kwargs, label=""):
+def run_post(idnt, post):
+    """what a user may do between a fit and looking at its outputs; none of
+    it changes the current fit"""
+    with warnings.catch_warnings():
+        warnings.simplefilter("ignore")
+        if post == "scan":
+            idnt.compute_emodulus_mindelta()
+        elif post == "estimate":
+            idnt.estimate_optimal_mindelta()
+        elif post == "rate":
+            idnt.rate_quality(regressor="Extra Trees", training_set="zef18")
+        elif post == "refit":
+            idnt.fit_model()
+        elif post == "initparams":
+            idnt.get_initial_fit_parameters()
+
+
+def observe_fit(idnt, kwargs, label="", post=None):
     from nanite import model
     rec = PassRecorder.install()
     rec.passes = []
@@ -147,6 +164,13 @@ def observe_fit(idnt, kwargs, label=""):
         out["raised"] = type(exc).__name__
     finally:
         rec.active = False
+    if post and not out["raised"]:
+        try:
+            run_post(idnt, post)
+        except BaseException as exc:
+            if isinstance(exc, (KeyboardInterrupt, SystemExit)):
+                raise
+            out["post_raised"] = type(exc).__name__
     passes = rec.passes
     fp = idnt.fit_properties
     out["passes_raw"] = len(passes)
@@ -291,6 +315,8 @@ def observe_fit(idnt, kwargs, label=""):
         md = model.models_available[fp["model_key"]]
         pf = fp["params_fitted"]
         pk = copy.deepcopy(pf)
+        # (bounds opened first: lmfit clips a value to the current bounds)
+        pk["contact_point"].set(min=-np.inf, max=np.inf)
         pk["contact_point"].set(value=pf["contact_point"].value * k)
         fscale = float(np.nanmax(np.abs(y))) or 1.0
         with warnings.catch_warnings():
@@ -326,6 +352,11 @@ def observe_fit(idnt, kwargs, label=""):
                 hi_b = p.max if name != "contact_point" else np.inf
                 if not (lo_b <= p.value <= hi_b):
                     rel["within_bounds"] = False
+        want = kw.get("params_initial")
+        if want is not None:
+            for name, p in want.items():
+                if p.expr and (name not in pf or pf[name].expr != p.expr):
+                    rel["expr_ok"] = False
         for name, p in pf.items():
             if p.expr:
                 try:
@@ -333,7 +364,9 @@ def observe_fit(idnt, kwargs, label=""):
                     ae = asteval.Interpreter()
                     for n2, p2 in pf.items():
                         ae.symtable[n2] = p2.value
-                    val = ae(p.expr)
+                    # (lmfit clips the value of an expression to the
+                    # parameter's own bounds)
+                    val = float(np.clip(ae(p.expr), p.min, p.max))
                     if not close(p.value, val, 1e-9,
                                  scale=max(abs(val), 1e-300)):
                         rel["expr_ok"] = False
